@@ -764,6 +764,11 @@ func chunkSegment(init *mp4.InitSegment, seg *mp4.MediaSegment, segMeta segMeta,
 	chunks := make([]chunk, 0, segMeta.newDur/uint32(chunkDur))
 	trackID := init.Moov.Trak.Tkhd.TrackID
 	ch := createChunk(seg.Styp, trackID, segMeta.newNr)
+	for _, c := range seg.Fragments[0].Children {
+		if emsg, ok := c.(*mp4.EmsgBox); ok {
+			ch.frag.AddEmsg(emsg) // Keep event messages (e.g. SCTE-35) in the first chunk
+		}
+	}
 	chunkNr := 1
 	var accChunkDur uint32 = 0
 	var totalDur = 0
